@@ -76,19 +76,20 @@ POOL = " Worker pools: for every processor count >= 1 and every --threads value 
 WIRE = " Entry points (Engine E): interpreted in a sequential pipeline model with every stage function replaced by a recorder: per scenario of the entry point's parameters the multiset of stages started with their scalar, data and stream arguments equals the specified wiring; nil when all stages complete; an error when any single stage reports one; invalid windows / reference counts / missing options fail before any worker starts. Argument-role rule: no positional argument is a variable named like a different parameter of the callee, and a caller's own same-named parameter is the one passed."
 DEFER = " No defer statement of a library function sits in a loop of its own frame whose trip count is not a compile-time constant (per-item resources are released per item)."
 STD = " Only the result writers write to standard output in library code (os.Stdout values and fmt.Print*)."
+BATCH = " Several queries through one activation of the sam worker give the single-query items (no state carried between queries)."
 EXTRA = {
- "C01": WIRE + CMD + POOL + " Arrival-order independence of the two FASTA writers over all 24 arrival orders.",
- "C02": WIRE + CMD + POOL + " Arrival-order independence of the pairwise writer over all 24 arrival orders." + DEFER,
- "C03": WIRE + CMD + POOL + " Arrival-order independence of the snps writer." + STD,
+ "C01": WIRE + CMD + POOL + " Arrival-order independence of the two FASTA writers over all 24 arrival orders." + BATCH,
+ "C02": WIRE + CMD + POOL + " Arrival-order independence of the pairwise writer over all 24 arrival orders; the directory branch writes one closed file per query with the same text." + DEFER + BATCH,
+ "C03": WIRE + CMD + POOL + " Arrival-order independence of the snps writer; both readers give the same records under every line wrapping." + STD,
  "C04": WIRE + CMD + " Only snps may select hard gaps: every encoded FASTA reader call in variants/sam/gff/genbank passes hardGaps=false. Several queries through one getVariantsSam worker give the single-query results. Arrival-order independence of WriteVariants. No output line carries two identical records (three overlapping features); the independent variant list of C13 holds.",
- "C05": WIRE + CMD,
+ "C05": WIRE + CMD + BATCH,
  "C06": WIRE + CMD + " The scoring reader's completeness score is that of the whole sequence under every line wrapping. raw and tn93 evaluate to NaN on pairs without a jointly resolved site; the ranked distance is the distance function's value.",
  "C07": WIRE + CMD + " The scoring reader's A/C/G/T counts are those of the whole sequence under every line wrapping; closest reads '-' as any base (hardGaps=false at every reader call). raw and tn93 evaluate to NaN on pairs without a jointly resolved site; the distance ranked and reported is the distance function's value, unchanged.",
  "C08": WIRE + CMD + " --ignore is plain membership for every list of <=4 names in file order; FASTA and CSV inputs give the same records on every field the ranking reads; updown reads '-' as any base.",
  "C09": WIRE + CMD + " Arrival-order independence of reorderRecords over all 24 arrival orders.",
- "C10": WIRE + CMD + " updown reads '-' as any base (hardGaps=false at every reader call); arrival-order independence of the list writer." + STD,
+ "C10": WIRE + CMD + " updown reads '-' as any base (hardGaps=false at every reader call); arrival-order independence of the list writer; both readers give the same records under every line wrapping." + STD,
  "C11": WIRE + CMD + " Both writers of an entry point get the same reference-record name; the annotation-derived reference has one constant placeholder name in every branch of both entry points; without a window trimAlignment passes the pair unchanged.",
- "C12": WIRE + POOL + " What a pool worker emits for a record equals what it emits for that record alone, read after the whole batch (getSNPs, getLines, getVariantsSam, trimAlignment); code reachable from goroutines writes no package-level variable, and a goroutine literal assigns to its starter's variable only as a single collector whose completion token the starter receives first (necessary conditions of race freedom); only the result writers write to standard output in library code (os.Stdout values and fmt.Print*)." + DEFER,
+ "C12": WIRE + POOL + " What a pool worker emits for a record equals what it emits for that record alone, read after the whole batch (getSNPs, getLines, getVariantsSam, trimAlignment); code reachable from goroutines writes no package-level variable, and a goroutine literal assigns to its starter's variable only as a single collector whose completion token the starter receives first (necessary conditions of race freedom); only the result writers write to standard output in library code (os.Stdout values and fmt.Print*); no unstable sort receives map-ordered input containing distinguishable ties." + DEFER + BATCH,
  "C13": WIRE + CMD + " Reverse-strand feature: aggregate lines are ordered by position, not residue; both writers get the same reference-record name (the denominator excludes the same record the per-sequence writer skips).",
  "C14": WIRE + CMD + " ORIGIN keeps every IUPAC letter; the annotation-derived reference carries the same constant name in the GenBank and the GFF branch.",
  "C15": WIRE + CMD + " A record named like the reference is treated in stdin mode as in file mode; the readers agree structurally (C16).",
